@@ -2,6 +2,7 @@
 from vlib import tree as T
 from vlib import effects
 from vlib.rulelib import *
+from vlib import absint
 from vlib.engine import Broken, line_path
 
 EXPLANATION = (
@@ -335,6 +336,24 @@ def run(world, rep, tier, only=None):
                    any(upward(t, a) for t, a in lits),
                    "`%s` (line %d) lies under `new_blk - old_blk > 0`: guards %s" %
                    (sn.text()[:20], sn.line, [("" if t else "!") + T.pp(a)[:30] for t, a in lits][-3:]))
+
+    # ------------------------------------------------------------------ C08.h a helper that changes the caller's inode says so
+    # migrate_ea_block() re-points i_file_acl in the inode copy it is given; inode_scan_and_fix() writes that copy back
+    # only when the helper raised *changed.  Every successful return after the re-pointing must have raised it.
+    me = prog.fn("migrate_ea_block", RZ)
+    sets = calls_to(me, "ext2fs_file_acl_block_set")
+    rep.floor("C08.h re-pointing of i_file_acl in migrate_ea_block", len(sets), 1)
+    flagp = me.params[3] if len(me.params) > 3 else None
+    raises = [n for n in me.events("S") if isinstance(T.strip(n.ev["lhs"]), dict) and T.strip(n.ev["lhs"]).get("k") == "u" and
+              T.strip(n.ev["lhs"]).get("o") == "*" and T.path(n.ev["lhs"]) == flagp and absint._nz(("C", T.const(n.ev.get("rhs")))
+              if T.const(n.ev.get("rhs")) is not None else None)]
+    for i, s_ in enumerate(sets):
+        ex = absint.Explorer(me, prog)
+        terms = ex.run([s_], on_node=lambda node, env, flags, _r=raises: flags | {"raised"} if node in _r else flags, skip_start_event=False)
+        quiet = sorted({node.line for (node, env, fl, st) in terms if node.ev and node.ev["e"] == "R" and "raised" not in fl and
+                        not absint._nz(ex.eval(node.ev.get("x"), env))})
+        rep.ob("C08.h", site(me, "*%s raised on every successful return after i_file_acl was re-pointed#%d" % (flagp, i)),
+               bool(raises) and not quiet, "returns that may be 0 and have not stored a non-zero *%s: lines %s" % (flagp, quiet))
 
 def _cn(n):
     return T.call_names(n.ev["x"])[0] if T.call_names(n.ev["x"]) else "?"
